@@ -21,7 +21,19 @@ pub fn check(v: &View, vd: &mut Verdict) {
             continue;
         }
         max_depth = max_depth.max(depth(case, s));
-        let parent_end = v.dead_from(p);
+        // the parent has terminated when its loop is over: its context, and with it the child list, goes
+        // right then, while the task itself may end a little later (the join handle is completed last).
+        // The last event logged by the parent's own task is a sound lower bound for that moment.
+        let parent_end = match v.hist.iter().find(|e| matches!(&e.kind, EvKind::TaskEnd { tag: TaskTag::Actor(x), .. } if *x == p)) {
+            Some(te) => {
+                let tid = match &te.kind {
+                    EvKind::TaskEnd { task, .. } => Some(*task),
+                    _ => None,
+                };
+                v.hist.iter().filter(|e| e.task == tid && e.stamp < te.stamp).map(|e| e.stamp).max().unwrap_or(te.stamp)
+            }
+            None => u64::MAX,
+        };
         let child_end = v.actors[s].task_end;
         // causes that concern the child itself: stop requests from outside handles, its own ctx.stop
         let mut own_cause = u64::MAX;
